@@ -627,7 +627,9 @@ func methodToFuncSig(pkg *Package, o types.Object, fn *Element) *types.Signature
 
 	sel := fn.Val.(*ast.SelectorExpr)
 	sel.Sel = ident(o.Name())
-	sel.X = &ast.ParenExpr{X: sel.X}
+	if _, ok := sel.X.(*ast.ParenExpr); !ok { // sel is shared by the candidates tried before
+		sel.X = &ast.ParenExpr{X: sel.X}
+	}
 	return toFuncSig(sig, recv)
 }
 
